@@ -18,6 +18,9 @@
      main.rego   : _file_name_relative_to_root, lint.ignore_directives[file]
      config.rego : docs[...] (two constant keys)
      ast/comments.rego : ignore_directives[row], comments[...] (three constant keys)
+     ast/imports.rego  : _imported_identifier (two bodies), imported_identifiers, resolved_imports[identifier]
+                         (several imports per identifier -> ONE path), and the 1:1 "simplification" of it
+     ast/ast.rego      : function_decls (object comprehension: several definitions per name -> ONE arity)
    (names marked + have their bodies in Model/Location.v)
    Definitions only. *)
 From Regal Require Export Base.Str Model.Location.
@@ -193,3 +196,111 @@ Definition directive_entries (comments : list (Z * option (list str))) : list (Z
 (* a keyed (partial-object) rule is conflict free when each key gets one value *)
 Definition keyed_conflict_free {K V} (entries : list (K * V)) : Prop :=
   forall k v w, In (k, v) entries -> In (k, w) entries -> v = w.
+
+(* ------------------------------------------------------------------ ast/imports.rego *)
+
+(* Several source constructs -> one value.  The parser accepts modules the compiler refuses: two imports under
+   one identifier, several functions of one name with different arities.  Regal lints whatever parses, so a keyed
+   rule over identifiers / names meets several candidates per key and must pick one. *)
+
+(* structural equality of values (OPA's ==, sets as written) *)
+Fixpoint jv_eqb (a b : jv) {struct a} : bool :=
+  let fix list_eq (l1 l2 : list jv) {struct l1} : bool :=
+    match l1, l2 with
+    | [], [] => true
+    | x :: l1', y :: l2' => jv_eqb x y && list_eq l1' l2'
+    | _, _ => false
+    end in
+  let fix kv_eq (l1 l2 : list (str * jv)) {struct l1} : bool :=
+    match l1, l2 with
+    | [], [] => true
+    | (k1, x) :: l1', (k2, y) :: l2' => str_eqb k1 k2 && jv_eqb x y && kv_eq l1' l2'
+    | _, _ => false
+    end in
+  match a, b with
+  | JNull, JNull => true
+  | JBool x, JBool y => Bool.eqb x y
+  | JNum x, JNum y => Z.eqb x y
+  | JStr x, JStr y => str_eqb x y
+  | JArr x, JArr y => list_eq x y
+  | JSet x, JSet y => list_eq x y
+  | JObj x, JObj y => kv_eq x y
+  | _, _ => false
+  end.
+
+(* an import as these rules look at it: the values of its path parts, and its alias (None = no alias) *)
+Record import := { imp_path : list str; imp_alias : option jv }.
+
+Fixpoint last_opt {A} (l : list A) : option A :=
+  match l with
+  | [] => None
+  | [x] => Some x
+  | _ :: l' => last_opt l'
+  end.
+
+Definition s_input : str := [105; 110; 112; 117; 116]%N.
+Definition s_data : str := [100; 97; 116; 97]%N.
+
+(* _imported_identifier(imp) := imp.alias *)
+Definition ii_b1 (i : import) : list jv := opt_list (imp_alias i).
+(* _imported_identifier(imp) := regal.last(imp.path.value).value if not imp.alias
+   (`not imp.alias` holds when there is no alias and when the alias is the value false) *)
+Definition ii_b2 (i : import) : list jv :=
+  match imp_alias i with
+  | None | Some (JBool false) => match last_opt (imp_path i) with Some s => [JStr s] | None => [] end
+  | Some _ => []
+  end.
+Definition imported_identifier := outputs [ii_b1; ii_b2].
+
+(* imp.path.value[0].value in {"input", "data"}; count(imp.path.value) > 1 *)
+Definition eligible (i : import) : bool :=
+  match imp_path i with
+  | h :: _ :: _ => str_eqb h s_input || str_eqb h s_data
+  | _ => false
+  end.
+
+(* imported_identifiers contains _imported_identifier(imp) if { some imp in imports; <eligible> } *)
+Definition imported_identifiers (imports : list import) : list jv :=
+  flat_map (fun i => if eligible i then imported_identifier i else []) imports.
+
+(* resolved_imports[identifier] := path if {
+     some identifier in imported_identifiers
+     paths := [path | some imp in imports; _imported_identifier(imp) == identifier; path := [part.value | ...]]
+     path := paths[0] }                              -- ALL imports are candidates, the first one wins *)
+Definition has_identifier (id : jv) (i : import) : bool := existsb (jv_eqb id) (imported_identifier i).
+Definition first_path (id : jv) (imports : list import) : list (list str) :=
+  match filter (has_identifier id) imports with
+  | i :: _ => [imp_path i]
+  | [] => []
+  end.
+Definition resolved_imports (imports : list import) : list (jv * list str) :=
+  flat_map (fun id => map (pair id) (first_path id imports)) (imported_identifiers imports).
+
+(* the "1:1 mapping" the comment in imports.rego wishes for — one entry per import:
+     resolved_imports[identifier] := path if { some imp in imports; <eligible>;
+                                                identifier := _imported_identifier(imp); path := [...] }
+   NOT the code; kept to state why the selection above is needed (Props/C03.v) *)
+Definition resolved_imports_one_to_one (imports : list import) : list (jv * list str) :=
+  flat_map (fun i => if eligible i then map (fun id => (id, imp_path i)) (imported_identifier i) else []) imports.
+
+(* ------------------------------------------------------------------ ast/ast.rego: function_decls *)
+
+(* a rule as function_decls looks at it: ref_to_string(rule.head.ref), and count(rule.head.args) when the head
+   has args at all *)
+Record rule_sig := { rs_name : str; rs_args : option nat }.
+
+(* function_decls(rules) := {rule_name: decl |
+     some rule in functions                            -- rules having head.args
+     rule_name := ref_to_string(rule.head.ref)
+     args := [[item | some arg in rule.head.args; ...] | some rule in rules; <same name>][0]
+     decl := {"decl": {"args": args, ...}}}           -- the FIRST rule of that name decides (any kind of rule) *)
+Definition first_arity (name : str) (rules : list rule_sig) : list nat :=
+  match filter (fun r => str_eqb (rs_name r) name) rules with
+  | r :: _ => [match rs_args r with Some n => n | None => 0%nat end]
+  | [] => []
+  end.
+Definition function_decls (rules : list rule_sig) : list (str * nat) :=
+  flat_map (fun r => match rs_args r with
+                     | Some _ => map (pair (rs_name r)) (first_arity (rs_name r) rules)
+                     | None => []
+                     end) rules.
